@@ -1,0 +1,193 @@
+//go:build verif
+
+// Contracts for package libschema, read by /verif/bin/govc (see /verif/DESIGN.md).
+// Compiled only under the build tag `verif`; comments only.
+//
+// Each s: type and constraint constructor returns a validator whose body is the
+// anonymous function `<constructor>$1`; the contracts below are on those bodies:
+// a validator accepts exactly the values its declaration describes (C14).
+
+package libschema
+
+//@ pred isErrOf(v, cond) = v != nil && v.Type == lisp.LError && v.Str == cond
+//@ pred isBool(v) = v.Type == lisp.LSymbol && (v.Str == "true" || v.Str == "false")
+
+// ---- type checks: a value of another type is refused with wrong-type; a value
+// of the declared type is judged by the constraints alone
+
+//@ func builtinCheckBool$1
+//@   requires input != nil
+//@   ensures  [wrong-type-refused] !old(isBool(input)) ==> isErrOf(result, "wrong-type")
+//@   ensures  [right-type-judged-by-constraints] old(isBool(input)) ==> result == ret("applyConstraint", 0)
+//@   property C14
+
+//@ func builtinCheckString$1
+//@   requires input != nil
+//@   ensures  [wrong-type-refused] old(input.Type) != lisp.LString ==> isErrOf(result, "wrong-type")
+//@   ensures  [right-type-judged-by-constraints] old(input.Type) == lisp.LString ==> result == ret("applyConstraint", 0)
+//@   property C14
+
+//@ func builtinCheckInt$1
+//@   requires input != nil
+//@   ensures  [wrong-type-refused] old(input.Type) != lisp.LInt ==> isErrOf(result, "wrong-type")
+//@   ensures  [right-type-judged-by-constraints] old(input.Type) == lisp.LInt ==> result == ret("applyConstraint", 0)
+//@   property C14
+
+//@ func builtinCheckFloat$1
+//@   requires input != nil
+//@   ensures  [wrong-type-refused] old(input.Type) != lisp.LFloat ==> isErrOf(result, "wrong-type")
+//@   ensures  [right-type-judged-by-constraints] old(input.Type) == lisp.LFloat ==> result == ret("applyConstraint", 0)
+//@   property C14
+
+//@ func builtinCheckNumber$1
+//@   requires input != nil
+//@   ensures  [wrong-type-refused] old(input.Type) != lisp.LInt && old(input.Type) != lisp.LFloat ==> isErrOf(result, "wrong-type")
+//@   ensures  [right-type-judged-by-constraints] old(input.Type) == lisp.LInt || old(input.Type) == lisp.LFloat ==> result == ret("applyConstraint", 0)
+//@   property C14
+
+//@ func builtinCheckArray$1
+//@   requires input != nil
+//@   ensures  [wrong-type-refused] old(input.Type) != lisp.LArray ==> isErrOf(result, "wrong-type")
+//@   ensures  [right-type-judged-by-constraints] old(input.Type) == lisp.LArray ==> result == ret("applyConstraint", 0)
+//@   property C14
+
+//@ func builtinCheckMap$1
+//@   requires input != nil
+//@   ensures  [wrong-type-refused] old(input.Type) != lisp.LSortMap ==> isErrOf(result, "wrong-type")
+//@   ensures  [right-type-judged-by-constraints] old(input.Type) == lisp.LSortMap ==> result == ret("applyConstraint", 0)
+//@   property C14
+
+//@ func builtinCheckFun$1
+//@   requires input != nil
+//@   ensures  [wrong-type-refused] old(input.Type) != lisp.LFun ==> isErrOf(result, "wrong-type")
+//@   ensures  [right-type-judged-by-constraints] old(input.Type) == lisp.LFun ==> result == ret("applyConstraint", 0)
+//@   property C14
+
+//@ func builtinCheckTaggedVal$1
+//@   requires input != nil
+//@   ensures  [wrong-type-refused] old(input.Type) != lisp.LTaggedVal ==> isErrOf(result, "wrong-type")
+//@   ensures  [right-type-judged-by-constraints] old(input.Type) == lisp.LTaggedVal ==> result == ret("applyConstraint", 0)
+//@   property C14
+
+// ---- value constraints
+
+//@ pred isNilVal(v) = v != nil && v.Type == lisp.LSExpr && len(v.Cells) == 0
+//@ pred numeric(v) = v.Type == lisp.LInt || v.Type == lisp.LFloat
+
+//@ func builtinIsTrue$1
+//@   uses singletons
+//@   requires input != nil
+//@   ensures  [refuses-every-other-name] old(input.Str) != "true" ==> isErrOf(result, "failed-constraint")
+//@   ensures  [accepts-true] old(input.Type) == lisp.LSymbol && old(input.Str) == "true" ==> isNilVal(result)
+//@   ensures  [refuses-non-symbols] old(input.Type) != lisp.LSymbol ==> isErrOf(result, "failed-constraint")
+//@   property C14
+
+//@ func builtinIsFalse$1
+//@   uses singletons
+//@   requires input != nil
+//@   ensures  [refuses-every-other-name] old(input.Str) != "false" ==> isErrOf(result, "failed-constraint")
+//@   ensures  [accepts-false] old(input.Type) == lisp.LSymbol && old(input.Str) == "false" ==> isNilVal(result)
+//@   ensures  [refuses-non-symbols] old(input.Type) != lisp.LSymbol ==> isErrOf(result, "failed-constraint")
+//@   property C14
+
+//@ func builtinIsNot$1
+//@   uses singletons
+//@   requires input != nil
+//@   ensures  [passes-exactly-when-the-inner-constraint-fails] ite(ret("applyConstraint", 0).Type == lisp.LError, isNilVal(result), isErrOf(result, "failed-constraint"))
+//@   property C14
+
+// Numeric bounds: accepted exactly when the comparison holds in Go's float64
+// order (so a NaN, which compares false with everything, is refused).
+//@ func builtinGreaterThan$1
+//@   uses singletons
+//@   requires input != nil
+//@   ensures  [non-numbers-refused] !old(numeric(input)) ==> isErrOf(result, "failed-constraint")
+//@   ensures  [floats-accepted-exactly-above] old(input.Type) == lisp.LFloat ==> ite(old(input.Float) > *comparison, isNilVal(result), isErrOf(result, "failed-constraint"))
+//@   ensures  [ints-accepted-exactly-above] old(input.Type) == lisp.LInt ==> ite(float64(old(input.Int)) > *comparison, isNilVal(result), isErrOf(result, "failed-constraint"))
+//@   property C14
+
+//@ func builtinGreaterThanOrEqual$1
+//@   uses singletons
+//@   requires input != nil
+//@   ensures  [non-numbers-refused] !old(numeric(input)) ==> isErrOf(result, "failed-constraint")
+//@   ensures  [floats-accepted-exactly-at-or-above] old(input.Type) == lisp.LFloat ==> ite(old(input.Float) >= *comparison, isNilVal(result), isErrOf(result, "failed-constraint"))
+//@   ensures  [ints-accepted-exactly-at-or-above] old(input.Type) == lisp.LInt ==> ite(float64(old(input.Int)) >= *comparison, isNilVal(result), isErrOf(result, "failed-constraint"))
+//@   property C14
+
+//@ func builtinLessThan$1
+//@   uses singletons
+//@   requires input != nil
+//@   ensures  [non-numbers-refused] !old(numeric(input)) ==> isErrOf(result, "failed-constraint")
+//@   ensures  [floats-accepted-exactly-below] old(input.Type) == lisp.LFloat ==> ite(old(input.Float) < *comparison, isNilVal(result), isErrOf(result, "failed-constraint"))
+//@   ensures  [ints-accepted-exactly-below] old(input.Type) == lisp.LInt ==> ite(float64(old(input.Int)) < *comparison, isNilVal(result), isErrOf(result, "failed-constraint"))
+//@   property C14
+
+//@ func builtinLessThanOrEqual$1
+//@   uses singletons
+//@   requires input != nil
+//@   ensures  [non-numbers-refused] !old(numeric(input)) ==> isErrOf(result, "failed-constraint")
+//@   ensures  [floats-accepted-exactly-at-or-below] old(input.Type) == lisp.LFloat ==> ite(old(input.Float) <= *comparison, isNilVal(result), isErrOf(result, "failed-constraint"))
+//@   ensures  [ints-accepted-exactly-at-or-below] old(input.Type) == lisp.LInt ==> ite(float64(old(input.Int)) <= *comparison, isNilVal(result), isErrOf(result, "failed-constraint"))
+//@   property C14
+
+//@ func builtinPositive$1
+//@   uses singletons
+//@   requires input != nil
+//@   ensures  [non-numbers-refused] !old(numeric(input)) ==> isErrOf(result, "failed-constraint")
+//@   ensures  [floats-accepted-exactly-above-zero] old(input.Type) == lisp.LFloat ==> ite(old(input.Float) > 0.0, isNilVal(result), isErrOf(result, "failed-constraint"))
+//@   ensures  [ints-accepted-exactly-above-zero] old(input.Type) == lisp.LInt ==> ite(float64(old(input.Int)) > 0.0, isNilVal(result), isErrOf(result, "failed-constraint"))
+//@   property C14
+
+//@ func builtinNegative$1
+//@   uses singletons
+//@   requires input != nil
+//@   ensures  [non-numbers-refused] !old(numeric(input)) ==> isErrOf(result, "failed-constraint")
+//@   ensures  [floats-accepted-exactly-below-zero] old(input.Type) == lisp.LFloat ==> ite(old(input.Float) < 0.0, isNilVal(result), isErrOf(result, "failed-constraint"))
+//@   ensures  [ints-accepted-exactly-below-zero] old(input.Type) == lisp.LInt ==> ite(float64(old(input.Int)) < 0.0, isNilVal(result), isErrOf(result, "failed-constraint"))
+//@   property C14
+
+// Length bounds: the comparison closures say when a length is OUT of bounds.
+//@ func builtinLen$1
+//@   ensures result == (length != comparison)
+//@   property C14
+//@ func builtinLenGreaterThan$1
+//@   ensures result == (length <= comparison)
+//@   property C14
+//@ func builtinLenGreaterThanOrEqual$1
+//@   ensures result == (length < comparison)
+//@   property C14
+//@ func builtinLenLessThan$1
+//@   ensures result == (length >= comparison)
+//@   property C14
+//@ func builtinLenLessThanOrEqual$1
+//@   ensures result == (length > comparison)
+//@   property C14
+
+// ---- sorted-map constraints refuse anything that is not a sorted map (they are
+// reachable under s:any, where no type check has run before them)
+
+//@ func builtinHasKey$1
+//@   requires input != nil
+//@   ensures  [non-map-refused] old(input.Type) != lisp.LSortMap ==> isErrOf(result, "wrong-type")
+//@   property C14
+
+//@ func builtinMayHaveKey$1
+//@   requires input != nil
+//@   ensures  [non-map-refused] old(input.Type) != lisp.LSortMap ==> isErrOf(result, "wrong-type")
+//@   property C14
+
+//@ func builtinWhen$1
+//@   requires input != nil
+//@   ensures  [non-map-refused] old(input.Type) != lisp.LSortMap ==> isErrOf(result, "wrong-type")
+//@   property C14
+
+//@ func builtinNoOtherKeys$1
+//@   requires input != nil
+//@   panics-when [never-on-a-non-map] false
+//@   ensures  [non-map-refused-when-no-key-constraint-ran] old(input.Type) != lisp.LSortMap && len(*constraints) == 0 ==> isErrOf(result, "wrong-type")
+//@   property C14
+
+//@ func builtinArrayOf$1
+//@   requires input != nil
+//@   ensures  [non-array-refused] old(input.Type) != lisp.LArray ==> isErrOf(result, "wrong-type")
+//@   property C14
